@@ -388,6 +388,12 @@ func (c13) Gen(r *rand.Rand, i, n int) any {
 func (c13) Decode(raw json.RawMessage) (any, error) {
 	var in c13Input
 	err := json.Unmarshal(raw, &in)
+	if len(in.Content) == 0 && in.Text != "" {
+		in.Content = []byte(in.Text) // hand-written inputs (corpus, findings) give the text only
+	}
+	if in.Stream == "" {
+		in.Stream = "replay"
+	}
 	return in, err
 }
 
@@ -482,6 +488,7 @@ func (c13) Run(input any) kit.Case {
 		tracked[m] = true
 	}
 	fracTS := false
+	feat := map[string]bool{}
 	if format == 0 {
 		type fe struct {
 			id int
@@ -509,12 +516,31 @@ func (c13) Run(input any) kit.Case {
 			if i := strings.IndexByte(l, ' '); i >= 0 {
 				if _, err := time.Parse(time.RFC3339Nano, l[:i]); err == nil {
 					tt = append(tt, fmt.Sprintf("(%d, %d)", li, i))
+					feat["text:line-with-rfc3339-field"] = true
+				} else {
+					feat["text:line-with-other-first-field"] = true
 				}
+			} else if l != "" {
+				feat["text:line-without-blank"] = true
 			}
 			for _, f := range fes {
 				ms := f.re.FindAllStringSubmatchIndex(l, -1)
 				if len(ms) == 0 {
 					continue
+				}
+				if len(ms) > 1 {
+					feat["text:several-matches-in-a-line"] = true
+				}
+				for _, loc := range ms {
+					if len(loc) >= 6 && loc[2] >= 0 && loc[4] >= 0 {
+						g1, g2 := l[loc[2]:loc[3]], l[loc[4]:loc[5]]
+						if strings.TrimSpace(g1) != g1 || strings.TrimSpace(g2) != g2 {
+							feat["text:group-needs-trimming"] = true
+						}
+						if !tracked[strings.TrimSpace(g1)] {
+							feat["text:match-for-untracked-name"] = true
+						}
+					}
 				}
 				mt = append(mt, fmt.Sprintf("(%s, %d, %s)", kit.Nat(f.id), li,
 					kit.ListOf(ms, func(loc []int) string {
@@ -545,6 +571,7 @@ func (c13) Run(input any) kit.Case {
 			var obj map[string]interface{}
 			if err := json.Unmarshal([]byte(l), &obj); err != nil {
 				jt = append(jt, fmt.Sprintf("(%d, None)", li))
+				feat["json:malformed-line"] = true
 				continue
 			}
 			keys := make([]string, 0, len(obj))
@@ -558,12 +585,22 @@ func (c13) Run(input any) kit.Case {
 				switch v := obj[k].(type) {
 				case string:
 					if _, err := time.Parse(time.RFC3339Nano, v); err == nil {
+						if k == "timestamp" {
+							feat["json:rfc3339-string-timestamp"] = true
+						}
 						return fmt.Sprintf("(%s, JT %s)", cstr(k), cstr(v))
+					}
+					if k == "timestamp" {
+						feat["json:invalid-string-timestamp"] = true
 					}
 					return fmt.Sprintf("(%s, JS %s)", cstr(k), cstr(v))
 				case float64:
 					if k == "timestamp" && v != math.Trunc(v) {
 						fracTS = true
+					} else if k == "timestamp" {
+						feat["json:integral-epoch"] = true
+					} else {
+						feat["json:number-valued-metric"] = true
 					}
 					return fmt.Sprintf("(%s, JN %s)", cstr(k), cstr(strconv.FormatFloat(v, 'f', -1, 64)))
 				default:
@@ -652,6 +689,12 @@ func (c13) Run(input any) kit.Case {
 	if format == 1 && fracTS {
 		c.Tags = append(c.Tags, "json:fractional-epoch")
 	}
+	var feats []string
+	for k := range feat {
+		feats = append(feats, k)
+	}
+	sort.Strings(feats)
+	c.Tags = append(c.Tags, feats...)
 	if len(in.Metrics) == 0 {
 		c.Tags = append(c.Tags, "metrics:none")
 	} else if hasDup(in.Metrics) {
